@@ -300,15 +300,14 @@ func (d *Dynamic) Draw(ctx vxfw.DrawContext) (vxfw.Surface, error) {
 
 // Inserts children until h < 0
 func (d *Dynamic) insertChildren(ctx vxfw.DrawContext, p *vxfw.Surface, ah int) error {
-	// We'll start at the widget before the top widget
-	d.scroll.top -= 1
-
 	var colOffset int
 	if d.DrawCursor {
 		colOffset = 2
 	}
 
-	for ah > 0 {
+	// We insert the widgets before the top widget, one at a time. The top
+	// widget index always is the index of our first child
+	for ah > 0 && d.scroll.top > 0 {
 		chCtx := vxfw.DrawContext{
 			Max: vxfw.Size{
 				Width:  ctx.Max.Width - uint16(colOffset),
@@ -316,12 +315,13 @@ func (d *Dynamic) insertChildren(ctx vxfw.DrawContext, p *vxfw.Surface, ah int) 
 			},
 			Characters: ctx.Characters,
 		}
-		ch := d.Builder(d.scroll.top, d.cursor)
+		ch := d.Builder(d.scroll.top-1, d.cursor)
 		// Break if we don't have a widget, really this should never
 		// happen
 		if ch == nil {
 			break
 		}
+		d.scroll.top -= 1
 
 		s, err := ch.Draw(chCtx)
 		if err != nil {
@@ -332,17 +332,10 @@ func (d *Dynamic) insertChildren(ctx vxfw.DrawContext, p *vxfw.Surface, ah int) 
 		ah -= int(s.Size.Height) + d.Gap
 		ss := vxfw.NewSubSurface(colOffset, ah, s)
 		p.Children = slices.Insert(p.Children, 0, ss)
-
-		if d.scroll.top == 0 {
-			break
-		}
-
-		// Decrease the top widget index
-		d.scroll.top -= 1
 	}
 
-	// Our ah is now the offset into the top widget
-	d.scroll.offset = ah
+	// Our ah is now the row of the top widget
+	d.scroll.offset = -ah
 
 	// We reached the top widget but are below row 0. Reset the
 	if d.scroll.top == 0 && ah > 0 {
